@@ -16,7 +16,7 @@ type Tok struct {
 }
 
 // Tokenize splits src into raw tokens (including whitespace, newlines and comments) whose
-// texts concatenate to src (up to the first NUL, which the lexer treats as end of input).
+// texts concatenate to src.
 func Tokenize(src string) []Tok {
 	runes := []rune(src)
 	l := lexer.New(src)
